@@ -1436,6 +1436,21 @@ theorem posed_ball_support3 (hs : LawfulSqrt sq) (r : K) (m : Iso3 K) (dir : V3 
 
 example : ((3/5 : ℝ) * (3/5) + 0 * 0 + (4/5) * (4/5) + 0 * 0 = 1) ∧ (0:ℝ) ≤ 2 := by norm_num
 
+/-- **C10 (`ConstantPoint`, `ConstantOrigin`)**: the constant support maps return the unique point of the
+singleton they stand for (trivially maximal), locally and posed. -/
+theorem constant_support (p : V3 K) (m : Iso3 K) (dir : V3 K) :
+    letI := fieldNum K sq
+    IsSupport3 sq (fun q => q = p) dir (constantPointLocal p dir) ∧
+    IsSupport3 sq (fun q => ∃ q0, q0 = p ∧ q = m.act q0) dir (constantPointPosed p m dir) ∧
+    IsSupport3 sq (fun q => q = ⟨0, 0, 0⟩) dir (constantOriginLocal dir) ∧
+    constantOriginPosed m dir = m.act (constantOriginLocal (m.invRot dir)) := by
+  refine ⟨⟨rfl, ?_⟩, ⟨⟨p, rfl, rfl⟩, ?_⟩, ⟨rfl, ?_⟩, ?_⟩
+  · rintro q rfl; exact le_refl _
+  · rintro q ⟨q0, rfl, rfl⟩; exact le_refl _
+  · rintro q rfl; exact le_refl _
+  · apply v3_ext <;>
+      simp [constantOriginPosed, constantOriginLocal, Iso3.act, Iso3.rot, Iso3.rotQ, Iso3.qv, V3.cross, V3.smul, V3.add]
+
 /-! ## non-vacuity of the remaining hypotheses (concrete inputs)
 `capsule_support*`: `r = 1/2 ≥ 0`, `dir = (0,-2,1) ≠ 0`;  `cuboid_face_vertices*`, `cuboid_edge_support3`,
 `cuboid_face_ids*`: `he = (1,2,3)`;  cylinder/cone features: `hh = 3/2`;  `round_support*`: its hypothesis is
